@@ -401,8 +401,16 @@ func CheckC01(run *ev.Run) {
 	for _, p := range pairs[:nNames] {
 		p := p
 		curKey = func(k string) string {
-			k = strings.TrimSuffix(k, ":"+p.name)
-			return "name@" + p.pos + ":" + NameClass(p.name) + ":" + k
+			// systematic classes are keyed by class, name collisions by the name itself; the phase is "generate" or "build:<role>"
+			phase := "generate"
+			if strings.HasPrefix(k, "build:") {
+				phase = strings.Join(strings.SplitN(k, ":", 3)[:2], ":")
+			}
+			switch c := NameClass(p.name); c {
+			case "non-ascii", "digit-first", "punctuation":
+				return "name@" + p.pos + ":" + c + ":" + phase
+			}
+			return "name@" + p.pos + "=" + strings.TrimSpace(p.name) + ":" + phase
 		}
 		feat["name@"+p.pos+":"+NameClass(p.name)]++
 		build("c01n", NameSpec(p.pos, p.name), []string{p.name}, []string{"server", "client"}, nil, fmt.Sprintf("name %q as %s", p.name, p.pos))
